@@ -440,12 +440,14 @@ class Ctx:
         return 0
 
 
-def pool_map(fn, items, workers=16, chunksize=1):
-    """Process-pool map that keeps OMP threads at 1 in the workers."""
+def pool_map(fn, items, workers=16, chunksize=1, fresh=False):
+    """Process-pool map that keeps OMP threads at 1 in the workers.  fresh=True: every item runs in a
+    process of its own (a newly spawned interpreter)."""
     import multiprocessing as mp
 
     if not items:
         return []
-    ctx = mp.get_context("fork")
-    with ctx.Pool(min(workers, len(items))) as p:
-        return p.map(fn, items, chunksize=chunksize)
+    # fresh: a spawned interpreter per item — it shares no module state with this process or with other items
+    ctx = mp.get_context("spawn" if fresh else "fork")
+    with ctx.Pool(min(workers, len(items)), maxtasksperchild=1 if fresh else None) as p:
+        return p.map(fn, items, chunksize=1 if fresh else chunksize)
